@@ -10,6 +10,7 @@ import (
 	"go/token"
 	"go/types"
 	"os"
+	"sort"
 	"strings"
 
 	"golang.org/x/tools/go/ssa"
@@ -56,6 +57,12 @@ const (
 	evHeadTested // IsHead() consulted after the handler
 	evIsHead
 	evDirty // a response sits in the connection writer and no Flush followed yet (survives iterations)
+	evCtxF0 // ctx field #0..#5 may hold what the handler of this iteration put there
+	evCtxF1
+	evCtxF2
+	evCtxF3
+	evCtxF4
+	evCtxF5
 	evReaderBit0
 )
 
@@ -123,7 +130,7 @@ func (f *serveFamily) serves(prop string) bool {
 var serveFamilies = []*serveFamily{
 	{name: "errors", rules: []string{"C01|R2a", "C01|R2b"}, mask: evReadLoopPending | evErrResp, readers: true},
 	{name: "body", rules: []string{"C02|R1a", "C02|R1b", "C02|R2"}, mask: evMayCont | evContRead | evRespClose | evHandler | evStreamChecked | evWrote | evCtxSwapped | evTAStale0 | evTAStale0<<1 | evTAStale0<<2 | evTAStale0<<3},
-	{name: "close", rules: []string{"C10|R2a", "C10|R2b", "C10|R2c"}, mask: evRespClose | evNotHTTP11 | evKeepAliveHdr},
+	{name: "close", rules: []string{"C10|R2a", "C10|R2b", "C10|R2c", "C10|R2d"}, mask: evRespClose | evNotHTTP11 | evKeepAliveHdr | evWrote | evHijackGo},
 	{name: "carried", rules: []string{"C11|R-loop", "C11|R-reset", "C07|R-default", "C35|R-reset"}, mask: evHandler | evReqReset | evRespReset, carried: true},
 	{name: "connstate", rules: []string{"C14|R1", "C14|R2"}, mask: evByteOK | evHandler, state: true},
 	{name: "shutdown", rules: []string{"C15|R3", "C15|R4"}, mask: evHandler | evWrote | evStopChecked | evIdleZero | evIdleMarked},
@@ -131,6 +138,7 @@ var serveFamilies = []*serveFamily{
 	{name: "hijack", rules: []string{"C17|R1", "C17|R3", "C17|R4"}, mask: evWrote | evFlushedAfterWrite | evHijackGo | evHijackNoResp},
 	{name: "head", rules: []string{"C03|R4"}, mask: evHandler | evHeadTested | evIsHead | evHeadSkip},
 	{name: "flush", rules: []string{"C15|R5"}, mask: evDirty},
+	{name: "ctxstate", rules: []string{"C11|R-ctx", "C17|R6"}, mask: evHandler | evCtxF0 | evCtxF1 | evCtxF2 | evCtxF3 | evCtxF4 | evCtxF5},
 }
 
 func (p *Prog) serveLoop(prop string) *serveResult {
@@ -234,6 +242,90 @@ func (p *Prog) serveLoop(prop string) *serveResult {
 		}
 	}
 	res.counts["C16.R3 ctx fields stored by the loop before the handler"] = len(loopStored)
+	// fields of RequestCtx that a handler can set through an exported method and that this function reads:
+	// per-request state living on an object that is reused for the next request of the connection
+	// (Request.Reset / Response.Reset do not touch them, RequestCtx.reset only runs when the ctx is released)
+	var ctxFields []*types.Var
+	{
+		settable := map[*types.Var]string{}
+		for _, m := range p.funcsIn("") {
+			if recvTypeName(m) != "RequestCtx" || !isExportedAPI(m) || len(m.Params) == 0 {
+				continue
+			}
+			// initialisers (they bind the ctx to a connection or a server; for tests and embedding, not for handlers)
+			initialiser := false
+			for _, b := range m.Blocks {
+				for _, in := range b.Instrs {
+					if st, ok := in.(*ssa.Store); ok {
+						if fa, ok := st.Addr.(*ssa.FieldAddr); ok && fa.X == ssa.Value(m.Params[0]) {
+							ts := fieldVar(fa.X.Type(), fa.Field).Type().String()
+							if ts == "net.Conn" || strings.HasSuffix(ts, "fasthttp.Server") {
+								initialiser = true
+							}
+						}
+					}
+				}
+			}
+			if initialiser {
+				continue
+			}
+			for _, b := range m.Blocks {
+				for _, in := range b.Instrs {
+					if st, ok := in.(*ssa.Store); ok {
+						if fa, ok := st.Addr.(*ssa.FieldAddr); ok && fa.X == ssa.Value(m.Params[0]) {
+							if c, isC := st.Val.(*ssa.Const); isC && (c.Value == nil || c.Value.ExactString() == "false" || c.Value.ExactString() == "0") {
+								continue
+							}
+							if fv := fieldVar(fa.X.Type(), fa.Field); fv != nil && settable[fv] == "" {
+								settable[fv] = m.Name()
+							}
+						}
+					}
+				}
+			}
+		}
+		readHere := map[*types.Var]bool{}
+		for _, b := range fn.Blocks {
+			for _, in := range b.Instrs {
+				if u, ok := in.(*ssa.UnOp); ok && u.Op == token.MUL {
+					if fa, ok := u.X.(*ssa.FieldAddr); ok && typeNameOf(fa.X) == "RequestCtx" {
+						if fv := fieldVar(fa.X.Type(), fa.Field); fv != nil {
+							readHere[fv] = true
+						}
+					}
+				}
+			}
+		}
+		for fv, by := range settable {
+			if readHere[fv] && !loopStored[fv] {
+				ctxFields = append(ctxFields, fv)
+				_ = by
+			}
+		}
+		sort.Slice(ctxFields, func(i, j int) bool { return ctxFields[i].Name() < ctxFields[j].Name() })
+		if len(ctxFields) > 6 {
+			ctxFields = ctxFields[:6]
+			res.notes = append(res.notes, "R-ctx: more than 6 handler-settable ctx fields are read by the serve loop; only the first 6 (by name) are tracked")
+		}
+		var names []string
+		for _, fv := range ctxFields {
+			names = append(names, fv.Name()+" (set by "+settable[fv]+")")
+		}
+		res.counts["R-ctx handler-settable ctx fields read by the serve loop"] = len(ctxFields)
+		res.notes = append(res.notes, "R-ctx fields: "+strings.Join(names, ", "))
+	}
+	ctxFieldBit := func(fv *types.Var) uint64 {
+		for i, f := range ctxFields {
+			if f == fv {
+				return evCtxF0 << uint(i)
+			}
+		}
+		return 0
+	}
+	allCtxBits := uint64(0)
+	for i := range ctxFields {
+		allCtxBits |= evCtxF0 << uint(i)
+	}
 	staleExempt := map[string]string{
 		"time": "only used as the idle-since marker after the response; any non-zero value in the past means idle, which the connection then is",
 	}
@@ -491,6 +583,16 @@ func (p *Prog) serveLoop(prop string) *serveResult {
 			if staleUse != nil {
 				staleUse(xx, st, in)
 			}
+			// a zero value stored into a handler-settable ctx field clears it for the next request
+			if sto, ok := in.(*ssa.Store); ok && allCtxBits != 0 {
+				if fa, ok := sto.Addr.(*ssa.FieldAddr); ok && typeNameOf(fa.X) == "RequestCtx" {
+					if bit := ctxFieldBit(fieldVar(fa.X.Type(), fa.Field)); bit != 0 {
+						if c, isC := sto.Val.(*ssa.Const); isC && (c.Value == nil || c.Value.ExactString() == "false" || c.Value.ExactString() == "0") {
+							st.Clear(bit)
+						}
+					}
+				}
+			}
 			// any I/O or release after the hijack hand-off is a violation (C17)
 			if st.Has(evHijackGo) {
 				if c, ok := in.(ssa.CallInstruction); ok {
@@ -567,6 +669,7 @@ func (p *Prog) serveLoop(prop string) *serveResult {
 				}
 				// the context object was exchanged: headers set on the old one are gone
 				st.Clear(evRespClose | evKeepAliveHdr | evHeadSkip)
+				st.Clear(allCtxBits)
 				if sv := in.(*ssa.Store).Val; sv == lastAcquire || isCallResultOf(sv, fAcquireCtx) {
 					if st.Has(evTimeoutT) {
 						setb(st, evFreshCtx)
@@ -610,6 +713,9 @@ func (p *Prog) serveLoop(prop string) *serveResult {
 				// C14: handler runs in Active state
 				check("C14|R1|handler runs in StateActive", stateOf(st) == 1, st, in.Pos(), "handler dispatched while the reported ConnState is not Active")
 				setb(st, evHandler)
+				if cur.name == "ctxstate" {
+					st.Ev |= allCtxBits
+				}
 			case isCallTo(c, fMayContinue):
 			case isCallTo(c, fContRead), isCallTo(c, fContReadS):
 				setb(st, evContRead)
@@ -813,6 +919,24 @@ func (p *Prog) serveLoop(prop string) *serveResult {
 					}
 				}
 			}
+			// a handler-settable ctx field found zero holds nothing to clear
+			if allCtxBits != 0 {
+				tv, zeroWhen := v, false // the value tested and the outcome that means "zero"
+				if bo, ok := v.(*ssa.BinOp); ok && (bo.Op == token.EQL || bo.Op == token.NEQ) && (isNilConst(bo.X) || isNilConst(bo.Y)) {
+					tv = bo.X
+					if isNilConst(bo.X) {
+						tv = bo.Y
+					}
+					zeroWhen = bo.Op == token.EQL
+				}
+				if _, fv := loadedField(tv); fv != nil {
+					if bit := ctxFieldBit(fv); bit != 0 && tk == zeroWhen {
+						if base, _ := loadedField(tv); base != nil && typeNameOf(base) == "RequestCtx" {
+							st.Clear(bit)
+						}
+					}
+				}
+			}
 			// an empty or absent connection writer holds no pending response
 			if bo, ok := v.(*ssa.BinOp); ok {
 				if c, isCall := bo.X.(*ssa.Call); isCall && bo.Op == token.GTR {
@@ -840,6 +964,56 @@ func (p *Prog) serveLoop(prop string) *serveResult {
 			}
 		},
 		Edge: func(xx *Explorer, st *State, from, to *ssa.BasicBlock) {
+			if inL[from] && !inL[to] && st.Has(evWrote) && !st.Has(evHijackGo) {
+				// ---- the loop is left after a response was written in this iteration ----
+				// Exits taken because an I/O step failed, or because of the stop flag (Shutdown closes
+				// connections after their response by design), are not the server deciding to close.
+				exempt := true
+				if iff, ok := from.Instrs[len(from.Instrs)-1].(*ssa.If); ok {
+					exempt = false
+					_, cv := stripNot(iff.Cond)
+					if bo, ok := cv.(*ssa.BinOp); ok && (bo.Op == token.NEQ || bo.Op == token.EQL) {
+						o := bo.X
+						if isNilConst(bo.X) {
+							o = bo.Y
+						}
+						if (isNilConst(bo.X) || isNilConst(bo.Y)) && strings.HasSuffix(o.Type().String(), "error") {
+							exempt = true
+						}
+					}
+					if bo, ok := cv.(*ssa.BinOp); ok {
+						for _, o := range []ssa.Value{bo.X, bo.Y} {
+							if c, ok := o.(*ssa.Call); ok {
+								if f := c.Call.StaticCallee(); f != nil && f.Name() == "Load" && len(c.Call.Args) == 1 && strings.HasSuffix(fieldPath(c.Call.Args[0]), "stop") {
+									exempt = true // the stop flag itself, tested directly
+								}
+							}
+						}
+					}
+					// the branch into the hijack hand-off (which never returns to the loop)
+					seen := map[*ssa.BasicBlock]bool{to: true}
+					q := []*ssa.BasicBlock{to}
+					for len(q) > 0 && !exempt {
+						b := q[0]
+						q = q[1:]
+						for _, in := range b.Instrs {
+							if g, ok := in.(*ssa.Go); ok && isCallTo(g, fHijack) {
+								exempt = true
+							}
+						}
+						for _, su := range b.Succs {
+							if !seen[su] && !inL[su] {
+								seen[su] = true
+								q = append(q, su)
+							}
+						}
+					}
+				}
+				if !exempt {
+					check("C10|R2d|the connection is closed after a response only when that response said Connection: close", st.Has(evRespClose), st, from.Instrs[len(from.Instrs)-1].Pos(),
+						fmt.Sprintf("the loop is left through the branch at the end of block %d (and the connection closed) on a decision taken after the response's Connection header was already chosen: the client was told nothing and loses the request it sends next", from.Index))
+				}
+			}
 			if to == header && inL[from] {
 				// ---- back edge: end of one iteration ----
 				check("C02|R1b|no further request after a rejected expectation", !(st.Has(evMayCont) && !st.Has(evContRead)), st, from.Instrs[len(from.Instrs)-1].Pos(),
@@ -856,6 +1030,14 @@ func (p *Prog) serveLoop(prop string) *serveResult {
 					check("C35|R-reset|the request (and with it a parsed multipart form) is reset before the next request", st.Has(evReqReset), st, hcall.Pos(),
 						"a path from the handler to the next iteration does not pass Request.Reset: temporary files of a parsed form survive into the next request")
 					check("C14|R1|iteration ends in StateIdle", stateOf(st) == 2, st, hcall.Pos(), "next request awaited while the reported state is not Idle")
+					for i, fv := range ctxFields {
+						bit := evCtxF0 << uint(i)
+						msg := "RequestCtx." + fv.Name() + " can be set by the handler, is read by the serve loop, and a path to the next request on the same ctx neither clears it nor finds it zero: what one request's handler set decides how a later request is answered"
+						check("C11|R-ctx|ctx."+fv.Name()+" does not survive into the next request on the connection", !st.Has(bit), st, hcall.Pos(), msg)
+						if strings.HasPrefix(strings.ToLower(fv.Name()), "hijack") {
+							check("C17|R6|ctx."+fv.Name()+" set for one request does not suppress or trigger anything for a later one", !st.Has(bit), st, hcall.Pos(), msg)
+						}
+					}
 				}
 				if st.Has(evCtxSwapped) {
 					for _, k := range staleKeys {
@@ -1169,6 +1351,7 @@ func (p *Prog) serveLoop(prop string) *serveResult {
 		"C16|R3|per-request ctx fields are not read from the swapped-in ctx",
 		"C16|R5|nothing but timeoutResponse is read from the ctx between the handler's return and the timeout test",
 		"C10|R3|close decision does not read per-request fields from the swapped-in ctx",
+		"C10|R2d|the connection is closed after a response only when that response said Connection: close",
 	}
 	for _, k := range mustSee {
 		ran := false
